@@ -49,6 +49,14 @@ def scenarios(rnd, tier):
         fr = c12.data_frame(rnd, rnd.randrange(2), c12.eapol_body(rnd, rnd.choice([0x008a, 0x010a, 0x13ca, 0x030a]), d, a))
         out.append(frames.mp_line(fr, rnd.randrange(3), rnd).replace("mp ", "eap ", 1))
         out.append(frames.mp_line(fr, rnd.randrange(3), rnd).replace("mp ", "cls ", 1))
+    # every BSS-side parser on RSN / WPA elements cut at every octet (the parse fails after the tag copy was allocated)
+    body = frames.rsn_body(frames.suite(frames.IEEE, 4), [frames.suite(frames.IEEE, 4), frames.suite(frames.IEEE, 2)], [frames.suite(frames.IEEE, 2)], caps=b"\x0c\x00")
+    wb = frames.wpa_body(frames.suite(frames.MS, 2), [frames.suite(frames.MS, 2)], [frames.suite(frames.MS, 2)])
+    for kind in frames.BSS_KINDS:
+        for cut in range(len(body) + 1):
+            out.append(frames.mp_line(frames.mgmt(kind, rnd, frames.elem(0, b"n") + frames.elem(48, body[:cut]) + frames.elem(3, b"\x01")), 0, rnd))
+        for cut in range(len(wb) + 1):
+            out.append(frames.mp_line(frames.mgmt(kind, rnd, frames.elem(0, b"n") + frames.elem(221, wb[:cut])), 0, rnd))
     # captures that end inside or right after the radiotap header (with and without an announced FCS)
     import rtbuild
     for fl in (0x00, 0x10):
